@@ -93,7 +93,7 @@ func c03Build(g *gen.G, n int, invalid []bool, msg []byte, h hash.Hasher, H bls3
 			b.sigs[i] = s
 			b.kinds[i] = "shortSig"
 		case kind == 7:
-			b.pks[i] = identityKeys(g, blsKey{x: xs[i], pk: b.pks[i]})[g.Pick(label+"idk", 3)]
+			b.pks[i] = identityKeys(g, blsKey{x: xs[i], pk: b.pks[i]})[g.Pick(label+"idk", 4)]
 			b.exact[i] = nil
 			b.kinds[i] = "identityKey"
 			if g.Bool(label + "idkSig") {
